@@ -12,8 +12,10 @@ PARSER_NOTE = ("Trusted: the spec->public-API builder, the intended-parse fold /
                "argv is rendered only where the documented rules are unambiguous (DESIGN appendix A). Nothing is claimed for shapes the generators do not produce.")
 def P(tech, text, ref, note=PARSER_NOTE):
     return ("parser-monitors", tech, text, note, ref)
-DAG_NOTE = ("Trusted: the controlled-schedule harness (task closures that park until released), the build-tag-guarded idle hook, the Go race detector. "
-            "Completion orders are controlled, Go-scheduler interleavings inside one scheduler iteration are only sampled; wall-clock watchdogs end as inconclusive, never as verdicts.")
+DAG_NOTE = ("Trusted: the controlled-schedule harness (task closures that park until released), the two build-tag-guarded scheduler hooks (idle tick, loop iteration), "
+            "the goroutine dump read before every no-progress verdict, the Go race detector. "
+            "Completion orders are controlled, Go-scheduler interleavings inside one scheduler iteration are only sampled; no-progress verdicts are taken in logical time "
+            "(idle ticks / loop iterations with unchanged state, every task goroutine blocked in two dumps); wall-clock watchdogs end as inconclusive, never as verdicts.")
 def D(tech, text, ref):
     return ("dag-monitors", tech, text, DAG_NOTE, ref)
 CHECKS = {
@@ -59,7 +61,7 @@ CHECKS = {
  "C15": D("runtime monitoring under the Go race detector: live-task counter / interval checker over the event log, contiguity checker over bytes received by an unsynchronized writer, plain counters raced on purpose",
           "Saturating workloads where the controller holds tasks open so that the bound is pressed (runs with peak==limit counted), serial mode with an unsynchronized shared counter, 2-4 concurrently running graphs over the same Task objects, buffered output with several chunks per attempt.",
           "6 (C15)"),
- "C16": D("runtime monitoring under the Go race detector: scheduler idle-tick hook invariant (fixpoint = deadlock, logical time), bounded-progress watchdog, work-conservation check at fresh quiescent points, cycle/definition-error rule, topological check of DepthFirstSort",
+ "C16": D("runtime monitoring under the Go race detector: scheduler hook invariants in logical time (idle-tick fixpoint = deadlock; silent loop iterations = spinning scheduler; launched-but-not-entered tasks with free capacity = work conservation), goroutine-dump check that every task goroutine is blocked before any no-progress verdict, work-conservation check at fresh quiescent points, cycle/definition-error rule, topological check of DepthFirstSort",
           "All public-API construction histories up to length 3 (quick) / 4 (thorough) over 3 tasks plus random longer ones (re-adds, duplicate/self edges, cycles, nil tasks) are built and run to completion or to a verdict; random DAGs for work conservation.",
           "6 (C16)"),
  "C17": P("runtime monitor: candidate-set oracle computed from the program spec over the list written by the real completion path (in process via the verif setters and by a real driver process leaving through os.Exit) + acceptance replay through the real parser",
